@@ -123,6 +123,7 @@ pub fn scenarios(quick: bool) -> Vec<Scenario> {
     add("lfframe-2same", "vardct-lfframe-40x24", vec![0, 0], None);
     add("patches-2same", "rgba-24x20-patches", vec![0, 0], None);
     add("patched-layers-2same", "rgba-24x20-patches-layer-under-patched-keyframe", vec![0, 0], None);
+    add("patched-layer-plain-kf-2same", "rgba-24x20-patched-layer-under-plain-keyframe", vec![0, 0], None);
     if !quick {
         add("lfframe-3same", "vardct-lfframe-40x24", vec![0, 0, 0], None);
         add("patches-3same", "rgba-24x20-patches", vec![0, 0, 0], None);
